@@ -3,6 +3,7 @@ package main
 // Command generators. One PRNG (seeded from VERIF_SEED) drives every choice.
 
 import (
+	"time"
 	"strconv"
 	"fmt"
 	"math/big"
@@ -464,6 +465,28 @@ func init() {
 		}
 		return a
 	})
+	// absolute deadlines: near future, decades, and centuries away (beyond what a time.Duration can hold,
+	// about 292 years), and relative ones of the same magnitude
+	reg("expire", "expireat", func(g *Gen) []string {
+		now := time.Now().Unix()
+		secs := []int64{now + 500 + int64(g.r.Intn(500)), 4102444800, 13569465600, 32503680000, 100000000000, 221845392000, now + 9300000000}[g.r.Intn(7)]
+		var a []string
+		if g.chance(0.5) {
+			a = []string{g.kw("expireat"), g.key(), fmt.Sprint(secs)}
+		} else {
+			a = []string{g.kw("pexpireat"), g.key(), fmt.Sprint(secs * 1000)}
+		}
+		if g.chance(0.3) {
+			a = append(a, g.kw(g.pick("NX", "XX", "GT", "LT")))
+		}
+		return a
+	})
+	reg("expire", "expirefar", func(g *Gen) []string {
+		if g.chance(0.5) {
+			return []string{g.kw("expire"), g.key(), g.pick("9300000000", "31536000000", "3153600000")}
+		}
+		return []string{g.kw("pexpire"), g.key(), g.pick("9300000000000", "31536000000000")}
+	})
 	reg("expire", "ttl", func(g *Gen) []string { return []string{g.kw(g.pick("ttl", "pttl", "expiretime", "pexpiretime")), g.key()} })
 	reg("expire", "persist", func(g *Gen) []string { return []string{g.kw("persist"), g.key()} })
 
@@ -746,8 +769,9 @@ func (g *Gen) floatMacro(c int, hash bool) []Op {
 		}
 		for j := 0; j < 1+g.r.Intn(5); j++ {
 			f := g.pick("f", "f", "f", "g", "new")
-			if g.chance(0.08) {
-				ops = append(ops, mkOp(c, g.kw("hincrbyfloat"), k, f, g.pick("abc", "", "1.2.3", "--1")))
+			if g.chance(0.15) {
+				ops = append(ops, mkOp(c, g.kw("hincrbyfloat"), g.pick(k, k, g.key(), "nokey_h"), f, g.pick("abc", "", "1.2.3", "--1", "inf", "-inf", "nan", "+Infinity", "infinity")),
+					mkOp(c, "EXISTS", "nokey_h"), mkOp(c, "TYPE", "nokey_h"))
 			} else {
 				ops = append(ops, mkOp(c, g.kw("hincrbyfloat"), k, f, g.smallDec()))
 			}
@@ -764,8 +788,9 @@ func (g *Gen) floatMacro(c int, hash bool) []Op {
 		ops = append(ops, mkOp(c, "SET", k, g.smallDec(), "EX", "1000"))
 	}
 	for j := 0; j < 1+g.r.Intn(5); j++ {
-		if g.chance(0.08) {
-			ops = append(ops, mkOp(c, g.kw("incrbyfloat"), k, g.pick("abc", "", "1.2.3", "--1", "1 ")))
+		if g.chance(0.15) {
+			ops = append(ops, mkOp(c, g.kw("incrbyfloat"), g.pick(k, k, "nokey_f"), g.pick("abc", "", "1.2.3", "--1", "1 ", "inf", "-inf", "nan", "infinity")),
+				mkOp(c, "EXISTS", "nokey_f"))
 		} else {
 			ops = append(ops, mkOp(c, g.kw("incrbyfloat"), k, g.smallDec()))
 		}
@@ -841,6 +866,33 @@ func (g *Gen) bitposMacro(c int) []Op {
 		}
 	}
 	ops = append(ops, mkOp(c, "GET", k))
+	return ops
+}
+
+
+// ---- LPOS: a list with repeated elements, then RANK (both directions) x COUNT x MAXLEN combinations
+// whose window is shorter or longer than the list ----
+func (g *Gen) lposMacro(c int) []Op {
+	k := g.key()
+	n := 4 + g.r.Intn(6)
+	a := []string{"RPUSH", k}
+	for i := 0; i < n; i++ {
+		a = append(a, g.pick("a", "b", "c"))
+	}
+	ops := []Op{mkOp(c, "DEL", k), mkOp(c, a...)}
+	for j := 0; j < 4+g.r.Intn(5); j++ {
+		q := []string{g.kw("lpos"), k, g.pick("a", "b", "c", "z")}
+		if g.chance(0.8) {
+			q = append(q, g.kw("RANK"), g.pick("1", "2", "3", "-1", "-1", "-2", "-3", "-9"))
+		}
+		if g.chance(0.5) {
+			q = append(q, g.kw("COUNT"), g.pick("0", "1", "2", "3", "10"))
+		}
+		if g.chance(0.7) {
+			q = append(q, g.kw("MAXLEN"), fmt.Sprint(g.r.Intn(n+3)))
+		}
+		ops = append(ops, mkOp(c, q...))
+	}
 	return ops
 }
 
